@@ -21,6 +21,7 @@ fn main() {
         "sealed-store" => drivers::sealed::run_store(&a),
         "keys" => drivers::sealed::run_keys(&a),
         "parent" => drivers::parent::run(&a),
+        "trees" => drivers::trees::run(&a),
         "restore" => drivers::restore::run(&a),
         "roundtrip" => drivers::roundtrip::run(&a),
         "sched" => drivers::sched::run(&a),
